@@ -81,6 +81,9 @@ fn snap_json<K: Kit>(s: &Snap<K>) -> Value {
 }
 
 fn replay<K: Kit>(prop: &str, tier: &str, idx: usize, st: &Step<K>, extra: Value) -> Value {
+    if let Some(d) = crate::props_deep::current() {
+        return json!({"kind": "deep", "prop": prop, "tier": tier, "deep": d, "scenario": st.sc.json(), "post": snap_json::<K>(st.post), "detail": extra});
+    }
     json!({"kind": "tree", "prop": prop, "tier": tier, "scenario_index": idx, "hist": st.hist, "letter": st.letter, "batch": st.batch,
            "scenario": st.sc.json(), "pre": snap_json::<K>(st.pre), "post": snap_json::<K>(st.post),
            "result": match st.result { Ok(p) => json!({"ok": p.iter().map(|s| K::to_v(s).json()).collect::<Vec<_>>()}), Err(e) => json!(format!("{e:?}")) },
@@ -204,7 +207,7 @@ fn c15_tree<K: Kit>(tier: &str, idx: usize, st: &Step<K>, which: usize, pre: &Tr
     }
 }
 
-fn c15<K: Kit>(tier: &str, idx: usize, st: &Step<K>, rep: &mut Report) {
+pub(crate) fn c15<K: Kit>(tier: &str, idx: usize, st: &Step<K>, rep: &mut Report) {
     rep.count("states_checked", 1);
     if st.result.is_ok() {
         rep.count("states_after_success", 1);
@@ -910,7 +913,7 @@ pub fn run(prop: &'static str, tier: &'static str) -> i32 {
         }
     }
     let must: Vec<&str> = match prop {
-        "C15" => vec!["states_after_success", "states_after_timeout", "edges_checked", "zero_length_edges"],
+        "C15" => vec!["states_after_success", "states_after_timeout", "edges_checked", "zero_length_edges", "deep_runs"],
         "C16" => vec!["nodes_added", "nothing_added", "bias0_iterations", "bias1_iterations", "connect_direct_goal_hit", "connect_joined_growing_start", "connect_joined_growing_goal", "connect_first_extension_failed", "bias_audit_coin_flips"],
         "C17" => vec!["rewires", "non_nearest_parent_chosen", "choose_parent_with_alternatives", "versus_paths_compared", "versus_star_strictly_shorter", "versus_seeded_runs"],
         _ => vec![],
@@ -918,6 +921,8 @@ pub fn run(prop: &'static str, tier: &'static str) -> i32 {
     if prop == "C15" {
         let n = rep.get("states_checked");
         rep.count("traces_validated", n);
+        // supplementary: deep seeded executions (trees of hundreds of nodes) under the same invariants
+        rep.merge(crate::props_deep::run("C15", tier));
     }
     let meta = CheckMeta {
         prop,
